@@ -18,12 +18,13 @@ PID = "C03"
 LEVEL = "exploration"
 RULE = ("ray solutions of {Specialized (Antarctic, Greenland), Basic(dz=1), Uniform with up to 2 reflections (incl. total internal "
         "reflection), Layered U|U and A|A} x signals {delta at 1, N/2, N-2; two-tone} x N in {64, 65} x polarizations {x, y, z, s, p, mixed "
-        "non-unit} x attenuation_interpolation {None, 0.05, 0.1, 0.5, 1.0}; distinct_nontrivial = distinct (solution, signal, polarization, "
+        "non-unit} x attenuation_interpolation {None, 0.05, 0.1, 0.5, 1.0, 2.0, 5.0}; distinct_nontrivial = distinct (solution, signal, polarization, "
         "interpolation) with a non-zero output")
 ASSUMPTIONS = ["attenuation reference = independent quadrature of ds/L_att(z,f) along the RK4-marched ray (tolerance 3e-3 |ln A| + 1e-9)",
                "amplitude transmission coefficients into a lower-index layer may exceed 1 (power flux is conserved); |F| <= 1 is demanded for "
                "reflections and index-matched transmissions only",
-               "with interpolation step s the filter may differ from the exact attenuation by at most A(f 10^-s) - A(f 10^s)"]
+               "with interpolation step s the effective attenuation at f may be any chord value (linear in f or in log f) between exact "
+               "attenuation values at nodes a <= f <= b inside the signal's band with b/a <= 10^s; the band edges are nodes"]
 CHUNK = 1
 
 DT = 2.0 ** -31
@@ -41,7 +42,49 @@ GEOMS = [
     ("layered", "uu", (64.0, -128.0, -50.0), 300.0, -450.0),
     ("layered", "aa", (64.0, -128.0, -50.0), 300.0, -300.0),
 ]
-INTERP = [None, 0.05, 0.1, 0.5, 1.0]
+INTERP = [None, 0.05, 0.1, 0.5, 1.0, 2.0, 5.0]
+
+
+_DEV_CACHE = {}
+
+
+def _interp_deviation(path, fpos, s):
+    """Largest |A_eff(f) - A(f)| any admissible interpolation of step `s` (decades) can produce on the positive frequencies
+    `fpos` of the signal: A_eff(f) is a chord value -- linear in f or in log f -- between exact values at nodes a <= f <= b with
+    fmin <= a, b <= fmax, b <= a 10^s.  The supremum over the node positions is taken on a 48-point logarithmic grid (plus the
+    extreme admissible positions) and padded by 2 % of the attenuation range for what lies between grid points."""
+    fpos = np.unique(np.asarray(fpos, float))
+    key = (id(path), float(s), len(fpos), float(fpos[0]), float(fpos[-1]))
+    if key in _DEV_CACHE and _DEV_CACHE[key][0] is path:
+        return _DEV_CACHE[key][1]
+    fmin, fmax = float(fpos[0]), float(fpos[-1])
+    G = np.unique(np.concatenate((np.logspace(math.log10(fmin), math.log10(fmax), 48), fpos)))
+    AG = np.asarray(path.attenuation(G), float)
+    lg = np.log10(G)
+    k = 10.0 ** s
+    worst = 0.0
+    for f in fpos:
+        af = float(np.interp(math.log10(f), lg, AG))
+        lo_a = max(fmin, f / k)
+        a = np.concatenate((G[(G >= lo_a) & (G <= f)], [lo_a, f]))
+        Aa = np.interp(np.log10(a), lg, AG)
+        # for each a: b ranges over the grid points in [f, min(fmax, a k)] plus the two ends
+        for ai, Aai in zip(a, Aa):
+            hi_b = min(fmax, ai * k)
+            if hi_b < f:
+                continue
+            b = np.concatenate((G[(G >= f) & (G <= hi_b)], [hi_b]))
+            b = b[b > ai * (1 + 1e-9)]
+            if not len(b):
+                continue
+            Ab = np.interp(np.log10(b), lg, AG)
+            w1 = (f - ai) / (b - ai)
+            w2 = (math.log10(f) - math.log10(ai)) / (np.log10(b) - math.log10(ai))
+            dev = max(float(np.max(np.abs(Aai + w1 * (Ab - Aai) - af))), float(np.max(np.abs(Aai + w2 * (Ab - Aai) - af))))
+            worst = max(worst, dev)
+    out = worst + 0.02 * abs(float(AG[0] - AG[-1]))
+    _DEV_CACHE[key] = (path, out)
+    return out
 
 
 def cases(tier, seed):
@@ -137,6 +180,7 @@ def evaluate(case):
     fails = []
     nontriv = []
     nev = 0
+    stats = {}
     gtag = "%s/%s %s -> %s" % (kind, ice_name, p0.tolist(), p1.tolist())
     vertical = rho == 0.0
 
@@ -268,8 +312,10 @@ def evaluate(case):
                 outs[(sname, pname)] = (got_s, got_p)
             else:
                 fpos = np.abs(f2n[f2n != 0])
-                bound = float(np.max(np.asarray(path.attenuation(fpos * 10 ** -interp), float) - np.asarray(path.attenuation(fpos * 10 ** interp), float)))
+                bound = _interp_deviation(path, fpos, interp)
                 slack = (bound + 1e-9) * float(np.sum(np.abs(vals))) * float(np.linalg.norm(pol))
+                stats["max_interp_dev_over_bound"] = max(stats.get("max_interp_dev_over_bound", 0.0),
+                                                         float(max(np.max(np.abs(got_s - exp_s)), np.max(np.abs(got_p - exp_p))) / slack))
                 if not (np.max(np.abs(got_s - exp_s)) <= slack and np.max(np.abs(got_p - exp_p)) <= slack):
                     fail("interpolated-attenuation", lab + ": output differs from the exact-attenuation result by %.3g, more than the interpolation bound %.3g"
                          % (max(np.max(np.abs(got_s - exp_s)), np.max(np.abs(got_p - exp_p))), slack))
@@ -336,4 +382,4 @@ def evaluate(case):
                 if src.exception_origin(e) != "library":
                     raise
                 fail("exception", "solution %d linearity: %s" % (si, src.short_tb(e)))
-    return {"n": nev, "nontrivial": nontriv, "fails": fails, "sample": {"geometry": gtag, "N": n, "solutions": len(sols)}}
+    return {"n": nev, "nontrivial": nontriv, "fails": fails, "stats": stats, "sample": {"geometry": gtag, "N": n, "solutions": len(sols)}}
